@@ -11,6 +11,7 @@ import (
 	"fmt"
 	"math"
 	"math/big"
+	"os"
 	"strings"
 
 	"github.com/apache/arrow-go/v18/arrow"
@@ -331,6 +332,7 @@ Print rec_propfail.
 }
 
 type dictWatch struct {
+	debug bool
 	evObserver
 	limit uint64
 	out   *Output
@@ -363,6 +365,11 @@ func (w *dictWatch) OnRecord(rec arrow.Record, pt record_message.PayloadType) {
 			cap := capOf(c.DataType().(*arrow.DictionaryType).IndexType)
 			n := uint64(c.Dictionary().Len())
 			w.stats["dict_columns_seen"]++
+			if w.debug {
+				if k := fmt.Sprintf("dbg %s%s idx=%d", pt, path, cap); w.stats[k] < int(n) {
+					w.stats[k] = int(n)
+				}
+			}
 			w.stats[fmt.Sprintf("index_cap_%d", cap)]++
 			// the overflow detection of RecordBuilderExt visits the columns whose field carries the dictionary transform's id
 			watched := f.Metadata.FindKey(transform.DictIdKey) >= 0
@@ -444,10 +451,54 @@ func runDictProducer(o opts, r *Rng, out *Output) {
 				// every string column of every record unbounded at once (names, status messages, scope names and versions,
 				// schema urls, attribute keys and values, event names, trace states, units, descriptions, bodies), for each
 				// signal: small batches past the 8-bit capacity, and for the 16-bit limits large ones past 65,535
+				if l.limit >= math.MaxUint32 && (thr == 0 || o.tier == "thorough") {
+					// only the dictionary-encoded 32-bit columns unbounded (span kind, status code, severity number: open enums),
+					// everything else constant: no other schema update ever restarts their dictionaries
+					for sig := 0; sig < 2; sig++ {
+						ctx3 := map[string]any{"option": l.name, "reset_threshold": thr, "seed": o.seed, "history": "32-bit-enum-columns-distinct", "signal": sig}
+						w3 := &dictWatch{debug: os.Getenv("VERIF_DICT_DEBUG") != "", evObserver: evObserver{events: map[string]string{}}, limit: l.limit, out: out, stats: stats, ctx: ctx3}
+						options3 := []cfgpkg.Option{cfgpkg.WithObserver(w3), cfgpkg.WithDictResetThreshold(thr)}
+						if l.opt != nil {
+							options3 = append(options3, l.opt)
+						}
+						func() {
+							defer func() {
+								if rec := recover(); rec != nil {
+									stats["producer_panics"]++
+								}
+							}()
+							p := arrow_record.NewProducerWithOptions(options3...)
+							defer p.Close()
+							for b := 0; b < 8; b++ { // an index upgrade restarts the dictionaries: go on well past it
+								if sig == 0 {
+									td := ptrace.NewTraces()
+									ss := td.ResourceSpans().AppendEmpty().ScopeSpans().AppendEmpty()
+									for i := 0; i < 25000; i++ {
+										sp := ss.Spans().AppendEmpty()
+										sp.SetName("s")
+										sp.SetKind(ptrace.SpanKind(b*25000 + i))
+										sp.Status().SetCode(ptrace.StatusCode(b*25000 + i))
+									}
+									_, _ = p.BatchArrowRecordsFromTraces(td)
+								} else {
+									ld := plog.NewLogs()
+									sl := ld.ResourceLogs().AppendEmpty().ScopeLogs().AppendEmpty()
+									for i := 0; i < 25000; i++ {
+										sl.LogRecords().AppendEmpty().SetSeverityNumber(plog.SeverityNumber(1 + b*25000 + i))
+									}
+									_, _ = p.BatchArrowRecordsFromLogs(ld)
+								}
+							}
+						}()
+						stats["enum_histories"]++
+						rows = append(rows, w3.rows...)
+						out.AddCaseTagged("prod", map[string]any{"option": l.name, "reset_threshold": thr, "history": "32-bit-enum-columns-distinct", "signal": sig, "dictionary_columns_inspected": len(w3.rows)}, len(w3.rows) > 0, "producer-enums "+l.name)
+					}
+				}
 				for sig := 0; sig < 3; sig++ {
 					sizes := []int{60, 150, 150, 150, 40}
 					own := true
-					if (l.limit == math.MaxUint16 && thr == 0.3) || (o.tier == "thorough" && l.limit >= math.MaxUint16) {
+					if (l.limit == math.MaxUint16 && thr == 0.3) || (l.limit == math.MaxUint32 && thr == 0 && sig < 2) || (o.tier == "thorough" && l.limit >= math.MaxUint16) {
 						sizes, own = []int{200, 30000, 30000, 30000, 500}, false
 					}
 					ctx2 := map[string]any{"option": l.name, "reset_threshold": thr, "seed": o.seed, "history": "all-columns-distinct", "signal": sig, "sizes": sizes}
